@@ -1,7 +1,7 @@
 (* C12 — checksummed data is never accepted after being altered (CAB XOR checksum part).
    This file contains statements only; proofs are in Proofs/CksumP.v, the model in Model/Cksum.v. *)
 From Coq Require Import List NArith.
-From MSP Require Import Model.Cksum Proofs.CksumP.
+From MSP Require Import Model.Cksum Proofs.CksumP Model.Oab Proofs.CrcP.
 Import ListNotations. Local Open Scope N_scope.
 
 Theorem C12_cab_cksum_single_byte : forall pre b b' post seed,
@@ -30,3 +30,9 @@ Theorem C12_block_tamper_stored : forall stored stored' hdr4 payload,
   stored' = 0 \/ block_accepts stored' hdr4 payload = false.
 Proof. exact block_tamper_stored. Qed.
 Print Assumptions C12_block_tamper_stored.
+
+(* OAB: the per-block CRC-32 (crc32.h over the table regenerated from crc32.c) changes whenever one byte of the block's data changes *)
+Theorem C12_oab_crc_single_byte : forall pre x x' post v, v < Oab.M32 -> x < 256 -> x' < 256 -> x <> x' ->
+  crc32 v (pre ++ x :: post) <> crc32 v (pre ++ x' :: post).
+Proof. exact crc32_single_byte. Qed.
+Print Assumptions C12_oab_crc_single_byte.
